@@ -197,7 +197,7 @@ def run_cases(c, exe, cases, tag, tcfg, jobs=8):
 
 def judge(c, exe, cfg, cases, tcfg):
     classify = make_classifier(cfg)
-    res = run_cases(c, exe, cases, cfg, tcfg)
+    res = run_cases(c, exe, cases, cfg, tcfg, jobs=8 if c.quick else 24)
     fails = [_minimise.Failure(ops, evs, k) for ops, (evs, k) in zip(cases, res) if k is not None]
     c.extra["rejected_executions"][cfg] = len(fails)
     if not fails:
@@ -216,9 +216,11 @@ def judge(c, exe, cfg, cases, tcfg):
             c.finding(sig, what, {"config": cfg, "ops": ops})
 
 
-def build_all(c, pool):
+def build_all(c, pool, only=None):
     futs = {}
     for name, (page, regs) in CONFIGS.items():
+        if only and name not in only.split(","):
+            continue
         rlist = ",".join("bluetoe::bootloader::memory_region<%d,%d>" % r for r in regs)
         rjson = "[%s]" % ",".join("[%d,%d]" % r for r in regs)
         futs[name] = pool.submit(vlib.build, c, "bl_" + name, ["bootloader/bootloader_harness.cpp"],
@@ -237,7 +239,7 @@ def run(c):
     c.extra["rejected_executions"] = {}
     tcfg = vlib.write_cfg(c, "trace.cfg", TRACE_CFG)
     pool = ThreadPoolExecutor(6)
-    builds = build_all(c, pool)
+    builds = build_all(c, pool, None if c.replay else os.environ.get("VERIF_DEV_C39_CONFIGS"))
     if c.replay:
         return replay(c, builds, tcfg)
     f_mc = pool.submit(vlib.model_check, c, "Bootloader", "MCBootloader.tla", "MC.cfg" if c.quick else "MCThorough.cfg", workers=4) \
@@ -251,6 +253,9 @@ def run(c):
         plan = {"p4_two": [("bfs", 3), ("flash", 5), ("race", 8)], "p4_unaligned": [("bfs", 2), ("flash", 4)],
                 "p16_two": [("bfs", 2), ("flash", 4), ("race", 7)], "p4_adjacent": [("flash", 4)]}
         nsim, dsim = 500, 12
+    only = os.environ.get("VERIF_DEV_C39_CONFIGS")           # development aid (mutation runs): restrict the configurations
+    if only:
+        plan = {k: v for k, v in plan.items() if k in only.split(",")}
     gens = {}
     for cfg, modes in plan.items():
         for mode, depth in modes:
